@@ -53,6 +53,8 @@ pub struct Acceptor<'a> {
   /// Tasks validated (made consistent) in this session.
   pub validated: BTreeSet<TaskId>,
   pub executed_in_session: BTreeSet<TaskId>,
+  /// Tasks executed in the current build (C04 speaks about one bottom-up build; a session may contain several).
+  pub executed_in_build: BTreeSet<TaskId>,
   pub findings: Vec<Finding>,
   pub facts: Facts,
   depth: usize,
@@ -68,7 +70,7 @@ impl<'a> Acceptor<'a> {
   /// `shadow` is the shadow record at the start of the session.
   pub fn new(prog: &'a Program, log: &'a [L], shadow: Shadow, session: &SessionRec) -> Self {
     Self {
-      prog, log, pos: 0, end: 0, shadow, state: session.state_before.clone(), faults: session.faults.clone(), validated: BTreeSet::new(), executed_in_session: BTreeSet::new(),
+      prog, log, pos: 0, end: 0, shadow, state: session.state_before.clone(), faults: session.faults.clone(), validated: BTreeSet::new(), executed_in_session: BTreeSet::new(), executed_in_build: BTreeSet::new(),
       findings: vec![], facts: Facts::default(), depth: 0, prev_requires: BTreeMap::new(), queue: BTreeSet::new(), in_bottom_up: false, aborted: false,
     }
   }
@@ -151,6 +153,7 @@ impl<'a> Acceptor<'a> {
     self.end = range.end;
     self.aborted = false;
     self.in_bottom_up = false;
+    self.executed_in_build.clear();
     let panicked = matches!(result, BuildResult::Panic(_));
     if self.expect("build_start", |e| matches!(e, Ev::BuildStart)).is_none() { return; }
     if self.expect("require_start(root)", |e| matches!(e, Ev::RequireStart { t, .. } if *t == root)).is_none() { return; }
@@ -305,6 +308,7 @@ impl<'a> Acceptor<'a> {
   fn execution(&mut self, t: TaskId) -> bool {
     if self.expect("execute_start", |e| matches!(e, Ev::ExecStart { t: x } if *x == t)).is_none() { return false; }
     self.executed_in_session.insert(t);
+    self.executed_in_build.insert(t);
     self.facts.executed.push(t);
     if self.in_bottom_up { self.facts.bu_executed.push(t); }
     loop {
